@@ -183,3 +183,55 @@ pub async fn stress(addr: std::net::SocketAddr, shared: SharedSystem, op: &Value
     }
     json!({"r": "ok", "events": events, "bg_rounds": bg_rounds})
 }
+
+
+/// {"op":"admin_stress","clients":k,"rounds":n,"seed":s}: several connections create and delete streams (server-assigned ids,
+/// names from a small pool) and topics at the same time. What matters afterwards: the journal replays to the catalogue the
+/// running server ended up with.
+pub async fn admin_stress(addr: std::net::SocketAddr, op: &Value) -> Value {
+    use iggy::client::{StreamClient, TopicClient};
+    use iggy::compression::compression_algorithm::CompressionAlgorithm;
+    use iggy::utils::expiry::IggyExpiry;
+    use iggy::utils::topic_size::MaxTopicSize;
+    let clients = u(op, "clients");
+    let rounds = u(op, "rounds");
+    let seed = u(op, "seed");
+    let mut handles = vec![];
+    for k in 0..clients {
+        handles.push(tokio::spawn(async move {
+            let c = connect(addr).await;
+            let mut rng = Lcg(seed ^ (k + 5).wrapping_mul(0x9E3779B97F4A7C15));
+            let (mut ok, mut err) = (0u64, 0u64);
+            for _ in 0..rounds {
+                let name = format!("st{}", rng.below(4));
+                let r = match rng.below(5) {
+                    0 | 1 => c.create_stream(&name, None).await.map(|_| ()),
+                    2 => c.delete_stream(&Identifier::named(&name).unwrap()).await,
+                    3 => c.delete_stream(&Identifier::numeric(1 + rng.below(3) as u32).unwrap()).await,
+                    _ => c
+                        .create_topic(&Identifier::named(&name).unwrap(), &format!("tp{}", rng.below(3)), 1, CompressionAlgorithm::None, None, None, IggyExpiry::NeverExpire, MaxTopicSize::Unlimited)
+                        .await
+                        .map(|_| ()),
+                };
+                if r.is_ok() {
+                    ok += 1;
+                } else {
+                    err += 1;
+                }
+                if rng.below(3) == 0 {
+                    tokio::task::yield_now().await;
+                }
+            }
+            let _ = c.disconnect().await;
+            (ok, err)
+        }));
+    }
+    let (mut ok, mut err) = (0, 0);
+    for h in handles {
+        if let Ok((a, b)) = h.await {
+            ok += a;
+            err += b;
+        }
+    }
+    json!({"r": "ok", "performed": ok, "refused": err})
+}
